@@ -80,7 +80,7 @@ def rms(v):
     return math.sqrt(sum(x * x for x in v) / max(1, len(v)))
 
 
-def probe_case(name, cfg, tones, n_in, with_model):
+def probe_case(name, cfg, tones, n_in, with_model, inlen='next'):
     """tones: [(f_cyc_per_input_sample, phase, amp)]"""
     k = cfg['kind']
     sig = "mix:" + ":".join("%s:%s:%s" % (f64hex(f), f64hex(ph), f64hex(a)) for f, ph, a in tones)
@@ -93,7 +93,7 @@ def probe_case(name, cfg, tones, n_in, with_model):
     lines = ["T ty=%s" % cfg['ty'], gens.new_line(cfg)]
     fed = 0
     while fed < n_in:
-        lines.append("PIB mask=- inlen=next outlen=next sig=%s" % sig)
+        lines.append("PIB mask=- inlen=%s outlen=next sig=%s" % (inlen, sig))
         fed += per_call
     meta = {'cfg': cfg, 'tones': tones, 'ratio': ratio, 'kind': k}
     if not with_model:
